@@ -207,10 +207,19 @@ def compare(res):
     return dis
 
 # ------------------------------------------------------------------ the property's own predicate, on the implementation
-def third_law_residual(di):
+def force_scale(kind, ep):
+    """rough size of the forces/moments the element can produce on the generated domain (|positions|,|velocities| of order 1..5);
+    needed because with both attachments on one body the array only shows the already cancelled sum"""
+    if kind == 'TPS': return 5.0 * ep[8] * (5.0 + ep[9])
+    if kind == 'TPD': return 5.0 * ep[8] * 10.0
+    if kind == 'TPC': return 5.0 * abs(ep[8])
+    if kind == 'LB': return 5.0 * (max(ep[14:20]) * 5.0 + max(ep[20:26]) * 10.0)
+    return 1.0
+
+def third_law_residual(di, kind, ep):
     """total force and total moment about the origin of Ground of the body forces the implementation returned,
-    relative to the size of the individual terms"""
-    nb = di['nb']; f = [0.0] * 3; m = [0.0] * 3; sc = 1e-300
+    relative to the size of the individual terms (or the element's force scale when that is larger)"""
+    nb = di['nb']; f = [0.0] * 3; m = [0.0] * 3; sc = 0.0
     for i in range(nb):
         F = di['bf'][6 * i:6 * i + 6]; p = di['X'][i][9:12]
         t, ff = F[:3], F[3:]
@@ -218,6 +227,7 @@ def third_law_residual(di):
         for a in range(3):
             f[a] += ff[a]; m[a] += t[a] + cr[a]
             sc = max(sc, abs(ff[a]), abs(t[a]), abs(cr[a]))
+    sc = max(sc, force_scale(kind, ep), 1e-300)
     return max(abs(x) for x in f + m) / sc, sc
 
 def search(ctx, exes, n):
@@ -234,9 +244,9 @@ def search(ctx, exes, n):
     for (k, hl, ep), l in zip(cases, lines):
         d = parse_impl(k, l)
         if 'error' in d: continue
-        res, sc = third_law_residual(d)
+        res, sc = third_law_residual(d, k, ep)
         worst = max(worst, res)
-        if res > 1e-9 and sc > 1e-9:
+        if res > 1e-9:
             nfail += 1
             if nfail == 1:
                 ctx.report('impl:third-law:' + NAMES[k], 'implementation violates Newton\'s third law: %s on bodies %s,%s: |net force/moment| = %.3g of the applied force scale'
@@ -271,8 +281,8 @@ def run(ctx):
         worst = 0.0
         for kind, hl, ep, di, dm, ml in res:
             if kind in INTERACTION:
-                rr, sc = third_law_residual(di); worst = max(worst, rr)
-                if rr > 1e-9 and sc > 1e-9:
+                rr, sc = third_law_residual(di, kind, ep); worst = max(worst, rr)
+                if rr > 1e-9:
                     ctx.report('impl:third-law:' + NAMES[kind], 'implementation violates Newton\'s third law: %s bodies %s,%s residual %.3g' % (NAMES[kind], ep[0], ep[1], rr),
                                {'kind': kind, 'harness_input': kind + ' ' + fmt(hl), 'residual': rr})
                     ctx.broken.append(('predicate:third-law', '%s residual %.3g' % (NAMES[kind], rr))); break
